@@ -77,6 +77,17 @@ Proof. intros Hp [k H]. rewrite iter_pit in H; auto. Qed.
 Definition drains (i : nat) : Prop := exists k, pit (iter k i).
 Definition loopfree : Prop := forall i, valid i -> drains i.
 
+Lemma iter_oob k i : size <= i -> size <= iter k i.
+Proof. revert i; induction k as [|k IH]; intros i H; simpl; auto. apply IH. rewrite nodata_oob; auto. Qed.
+
+Lemma drains_valid i : drains i -> valid i.
+Proof.
+  intros [[|k] [Hv Hk]]; simpl in *; auto. destruct Hv as [Hv _].
+  assert (Hd : dsf i < size).
+  { destruct (Nat.lt_ge_cases (dsf i) size) as [H|H]; auto. apply (iter_oob k) in H. lia. }
+  split; auto. destruct (Nat.lt_ge_cases i size) as [H|H]; auto. apply nodata_oob in H. lia.
+Qed.
+
 (* ---------- topological orders ---------- *)
 
 (* seq is ordered down- to upstream: every element is valid, occurs once, and is a pit or
